@@ -921,6 +921,10 @@ def check_C14(c):
         if not p["ident_same"] or not p["path_same"]:
             out.append(V("C14", "identity-changed", {"kind": p["kind"], "node": p["node"].split(":")[0]},
                          "identifier/job path of x=%d changed after %s on %s" % (p["x"], p["kind"], p["node"])))
+    for ev in c.by["copy-mutate"]:
+        if not ev[5]["graph_same"]:
+            out.append(V("C14", "submitted-graph-changed", {"kind": "copy-inplace", "node": ev[5]["node"].split(":")[0]},
+                         "the graph of submitted x=%d changed when the containers of a copy of %s were changed in place" % (ev[5]["x"], ev[5]["node"])))
     for ev in c.by["params-check"]:
         if not ev[5]["equal"]:
             out.append(V("C14", "executed-differs-from-identified", {"error": ev[5].get("error")},
